@@ -41,7 +41,8 @@ theorem inv0_qstart {s : Srv} (h : Inv0 s) : Inv0 (step s .qstart) := by
     rw [setAt_other _ _ _ _ ei]
     by_cases e : j = s.nq
     · subst e; rw [setAt_same]
-      have := h.q_inst i (by omega); show (s.queries i).inst ≤ s.served; omega
+      have := h.q_inst i (by omega); have hl := h.served_last
+      show (s.queries i).inst ≤ s.served; omega
     · rw [setAt_other _ _ _ _ e]; exact h.q_sorted i j hij (by omega)
   · intro i hi
     show (s.insts (setAt s.queries s.nq _ i).inst).catchups = 0 →
@@ -53,7 +54,7 @@ theorem inv0_qstart {s : Srv} (h : Inv0 s) : Inv0 (step s .qstart) := by
 theorem step_qread_eq (s : Srv) (i : Nat) (hi : i < s.nq) (hd : (s.queries i).done = false) :
     step s (.qread i) =
       { s with queries := setAt s.queries i
-          { s.queries i with reads := (s.queries i).reads ++ [(s.insts (s.queries i).inst).gen] } } := by
+          { (s.queries i) with reads := (s.queries i).reads ++ [(s.insts (s.queries i).inst).gen] } } := by
   simp only [step]; rw [if_pos ⟨hi, hd⟩]
 
 theorem step_qread_skip (s : Srv) (i : Nat) (h : ¬ (i < s.nq ∧ (s.queries i).done = false)) :
@@ -72,7 +73,7 @@ theorem inv0_qread {s : Srv} (h : Inv0 s) (i : Nat) : Inv0 (step s (.qread i)) :
     · intro a b hab hb
       show (setAt s.queries i _ a).inst ≤ (setAt s.queries i _ b).inst
       have h1 : ∀ x, (setAt s.queries i
-          { s.queries i with reads := (s.queries i).reads ++ [(s.insts (s.queries i).inst).gen] } x).inst
+          { (s.queries i) with reads := (s.queries i).reads ++ [(s.insts (s.queries i).inst).gen] } x).inst
           = (s.queries x).inst := by
         intro x; by_cases e : x = i
         · subst e; rw [setAt_same]
@@ -92,7 +93,7 @@ theorem inv0_qread {s : Srv} (h : Inv0 s) (i : Nat) : Inv0 (step s (.qread i)) :
 
 theorem step_qfinish_eq (s : Srv) (i : Nat) (hi : i < s.nq) :
     step s (.qfinish i) =
-      { s with queries := setAt s.queries i { s.queries i with done := true } } := by
+      { s with queries := setAt s.queries i { (s.queries i) with done := true } } := by
   simp only [step]; rw [if_pos hi]
 
 theorem step_qfinish_skip (s : Srv) (i : Nat) (h : ¬ i < s.nq) : step s (.qfinish i) = s := by
@@ -100,9 +101,9 @@ theorem step_qfinish_skip (s : Srv) (i : Nat) (h : ¬ i < s.nq) : step s (.qfini
 
 /-- a query record after `qfinish`/`qread` differs only in `reads`/`done` -/
 theorem setAt_done_proj (s : Srv) (i x : Nat) :
-    (setAt s.queries i { s.queries i with done := true } x).inst = (s.queries x).inst ∧
-    (setAt s.queries i { s.queries i with done := true } x).reads = (s.queries x).reads ∧
-    (setAt s.queries i { s.queries i with done := true } x).startGen = (s.queries x).startGen := by
+    (setAt s.queries i { (s.queries i) with done := true } x).inst = (s.queries x).inst ∧
+    (setAt s.queries i { (s.queries i) with done := true } x).reads = (s.queries x).reads ∧
+    (setAt s.queries i { (s.queries i) with done := true } x).startGen = (s.queries x).startGen := by
   by_cases e : x = i
   · subst e; rw [setAt_same]; exact ⟨rfl, rfl, rfl⟩
   · rw [setAt_other _ _ _ _ e]; exact ⟨rfl, rfl, rfl⟩
@@ -159,12 +160,33 @@ theorem inv0_catchupServed {s : Srv} (h : Inv0 s) (hb : s.backend = .rdb) (d : N
     by_cases e : (s.queries i).inst = s.served
     · rw [e, setAt_same]; intro hc; simp at hc
     · rw [setAt_other _ _ _ _ e]; exact h.q_frozen i hi
-  · intro hc; rw [hb] at hc; cases hc
+  · intro hc; change s.backend = .cdb at hc; rw [hb] at hc; cases hc
 
 theorem isCatchup_rdb {s : Srv} {k : Kind} (h : isCatchup s k = true) :
     s.backend = .rdb ∧ target s k = (s.insts s.served).path := by
   simp only [isCatchup, Bool.and_eq_true, decide_eq_true_eq, beq_iff_eq] at h
   exact h
+
+theorem reload_none {s : Srv} {k : Kind} {o : Outcome} (hd : s.disk (target s k) = none) :
+    reload s k o = s := by
+  simp only [reload, hd]
+
+theorem reload_catch_eq {s : Srv} {k : Kind} {o : Outcome} {d : Nat}
+    (hd : s.disk (target s k) = some d) (hc : isCatchup s k = true) :
+    reload s k o = (match o with
+      | .ok => { catchupServed s d with path := target s k }
+      | .validationKeyMissing => catchupServed s d
+      | .timeout => catchupServed s d
+      | .missingPath => s
+      | .openError => s) := by
+  simp only [reload, hd, hc, ↓reduceIte]
+
+theorem reload_switch_eq {s : Srv} {k : Kind} {o : Outcome} {d : Nat}
+    (hd : s.disk (target s k) = some d) (hc : isCatchup s k = false) :
+    reload s k o = (match o with
+      | .ok => switchTo s (target s k) d
+      | _ => s) := by
+  simp only [reload, hd, hc, Bool.false_eq_true, ↓reduceIte]
 
 /-- what a reload step does, as a case list -/
 theorem reload_cases (s : Srv) (k : Kind) (o : Outcome) :
@@ -175,28 +197,26 @@ theorem reload_cases (s : Srv) (k : Kind) (o : Outcome) :
         reload s k o = { catchupServed s d with path := target s k }) ∨
     (∃ d, s.disk (target s k) = some d ∧ isCatchup s k = false ∧ o = .ok ∧
         reload s k o = switchTo s (target s k) d) := by
-  unfold reload
   cases hd : s.disk (target s k) with
-  | none => exact Or.inl rfl
+  | none => exact Or.inl (reload_none hd)
   | some d =>
-    simp only []
     cases hc : isCatchup s k with
     | true =>
-      rw [if_pos rfl]
+      have e := reload_catch_eq (o := o) hd hc
       cases o with
-      | ok => exact Or.inr (Or.inr (Or.inl ⟨d, rfl, rfl, rfl, rfl⟩))
-      | validationKeyMissing => exact Or.inr (Or.inl ⟨d, rfl, rfl, Or.inl rfl, rfl⟩)
-      | timeout => exact Or.inr (Or.inl ⟨d, rfl, rfl, Or.inr rfl, rfl⟩)
-      | missingPath => exact Or.inl rfl
-      | openError => exact Or.inl rfl
+      | ok => exact Or.inr (Or.inr (Or.inl ⟨d, rfl, rfl, rfl, e⟩))
+      | validationKeyMissing => exact Or.inr (Or.inl ⟨d, rfl, rfl, Or.inl rfl, e⟩)
+      | timeout => exact Or.inr (Or.inl ⟨d, rfl, rfl, Or.inr rfl, e⟩)
+      | missingPath => exact Or.inl e
+      | openError => exact Or.inl e
     | false =>
-      rw [if_neg (by simp)]
+      have e := reload_switch_eq (o := o) hd hc
       cases o with
-      | ok => exact Or.inr (Or.inr (Or.inr ⟨d, rfl, rfl, rfl, rfl⟩))
-      | validationKeyMissing => exact Or.inl rfl
-      | timeout => exact Or.inl rfl
-      | missingPath => exact Or.inl rfl
-      | openError => exact Or.inl rfl
+      | ok => exact Or.inr (Or.inr (Or.inr ⟨d, rfl, rfl, rfl, e⟩))
+      | validationKeyMissing => exact Or.inl e
+      | timeout => exact Or.inl e
+      | missingPath => exact Or.inl e
+      | openError => exact Or.inl e
 
 theorem inv0_reload {s : Srv} (h : Inv0 s) (k : Kind) (o : Outcome) : Inv0 (reload s k o) := by
   rcases reload_cases s k o with e | ⟨d, _, hc, _, e⟩ | ⟨d, _, hc, _, e⟩ | ⟨d, _, _, _, e⟩
@@ -375,6 +395,7 @@ theorem inv1_catchupServed {s : Srv} (h0 : Inv0 s) (h : Inv1 s) (d : Nat)
     exact Nat.le_trans (h.q_start_hi i hi) (hgen _)
   · intro j hj k hk
     have := h0.q_inst j hj
+    have hl := h0.served_last
     have e : k ≠ s.served := by have : k < (s.queries j).inst := hk; omega
     show (setAt s.insts s.served _ k).gen ≤ (s.queries j).startGen
     rw [setAt_other _ _ _ _ e]; exact h.q_below j hj k hk
@@ -607,7 +628,7 @@ theorem quiet_exact (s : Srv) (post : List Step) (hqt : quiet post = true) (n0 :
       by_cases c : j < s.nq ∧ (s.queries j).done = false
       · rw [step_qread_eq s j c.1 c.2]
         have := ih { s with queries := setAt s.queries j
-            { s.queries j with reads := (s.queries j).reads ++ [(s.insts (s.queries j).inst).gen] } }
+            { (s.queries j) with reads := (s.queries j).reads ++ [(s.insts (s.queries j).inst).gen] } }
           hrest (by
             intro i hn hi
             show (setAt s.queries j _ i).inst = s.served ∧
@@ -627,7 +648,7 @@ theorem quiet_exact (s : Srv) (post : List Step) (hqt : quiet post = true) (n0 :
     · subst e
       by_cases c : j < s.nq
       · rw [step_qfinish_eq s j c]
-        have := ih { s with queries := setAt s.queries j { s.queries j with done := true } }
+        have := ih { s with queries := setAt s.queries j { (s.queries j) with done := true } }
           hrest (by
             intro i hn hi
             show (setAt s.queries j _ i).inst = s.served ∧
